@@ -106,6 +106,24 @@ pub fn corr(tier: &str, seed: u64, c: &mut Corr) {
                 c.emit(&format!("findid {} {}", hexs(&id), dump), &ans);
             }
         }
+        // ---- "nothing to render": the box of every leaf against the model's non-zero test
+        {
+            fn leaves<'a>(g: &'a usvg::Group, out: &mut Vec<&'a Node>) {
+                for n in g.children() {
+                    match n {
+                        Node::Group(c) => leaves(c, out),
+                        n => out.push(n),
+                    }
+                }
+            }
+            let mut ls = vec![];
+            leaves(t.root(), &mut ls);
+            for n in ls.iter().take(40) {
+                let b = n.abs_bounding_box();
+                let ans = if n.abs_layer_bounding_box().is_some() { "some" } else { "none" };
+                c.emit(&format!("canvas {} {} {} {} {}", hx(b.left()), hx(b.top()), hx(b.right()), hx(b.bottom()), hx(1.0)), ans);
+            }
+        }
         // ---- export transform of a few nodes with ids
         let mut ids = vec![];
         all_ids(t.root(), &mut ids);
